@@ -745,4 +745,63 @@ Section Pass.
     pose proof (pc_roots _ _ _ E2) as H2. cbn [fst] in H2. rewrite H2.
     apply (counting_done_pc _ _ _ E1). reflexivity.
   Qed.
+
+  (** ** I-tc after the pass: whatever is (still) buffered has tracing counter 0 *)
+  Definition pcz (m : machine) : Prop :=
+    forall o x, get m o = Some x -> o ∈ pc m -> h_tc (o_hdr x) = 0.
+
+  Lemma pcz_nil m : pc m = [] -> pcz m.
+  Proof. intros E o x _ Ho. rewrite E in Ho. inversion Ho. Qed.
+
+  Lemma pcz_reset_buffered m : pcz (reset_buffered m).
+  Proof.
+    intros o x E Ho. unfold reset_buffered in *.
+    destruct (fold_uhdr_proj reset_tc (pc m) m) as (A1 & _). rewrite A1 in Ho.
+    rewrite get_fold_uhdr, decide_True in E by (reflexivity || exact Ho).
+    destruct (get m o) as [x0|]; [|discriminate]. cbn in E. injection E as <-. reflexivity.
+  Qed.
+
+  Lemma process_counting_boom_pcz s p :
+    (process_counting K P s p).2 = true -> pcz (t_m (process_counting K P s p).1).
+  Proof.
+    unfold process_counting. destruct (trace_event K p _) as [m1 boom].
+    destruct boom; [intros _; cbn [fst t_m]; apply pcz_reset_buffered|].
+    destruct (traced_children P m1 p) as [m2 kids]. destruct (_ =? _); cbn; discriminate.
+  Qed.
+
+  Lemma counting_boom_pcz n : forall s r,
+    counting K P n s = Some r -> r.2 = true -> pcz (t_m r.1).
+  Proof.
+    induction n as [|n IH]; intros s r E Hb; cbn in E; [discriminate|].
+    destruct (pc (t_m s)) as [|o rest].
+    - destruct (t_q s) as [|o q'].
+      + injection E as <-. discriminate.
+      + match type of E with context [process_counting K P ?s0 o] =>
+          pose proof (process_counting_boom_pcz s0 o) as H2;
+          destruct (process_counting K P s0 o) as [s' boom] end.
+        destruct boom; [injection E as <-; apply H2; reflexivity|]. eapply IH; eassumption.
+    - match type of E with context [process_counting K P ?s0 o] =>
+        pose proof (process_counting_boom_pcz s0 o) as H2;
+        destruct (process_counting K P s0 o) as [s' boom] end.
+      destruct boom; [injection E as <-; apply H2; reflexivity|]. eapply IH; eassumption.
+  Qed.
+
+  Theorem trace_pass_pcz m : (trace_pass K P m).2 <> PFuel -> pcz (trace_pass K P m).1.
+  Proof.
+    unfold trace_pass.
+    destruct (counting K P (pass_fuel m) (TState m [] [] [])) as [[s b]|] eqn:E1;
+      [|intros H; destruct (H eq_refl)].
+    destruct b; cbn [fst snd].
+    - intros _. apply (counting_boom_pcz _ _ _ E1). reflexivity.
+    - destruct (roots K P (pass_fuel m) s) as [[s' b']|] eqn:E2; [|intros H; destruct (H eq_refl)].
+      pose proof (pc_roots _ _ _ E2) as H2. cbn [fst] in H2.
+      pose proof (counting_done_pc _ _ _ E1 eq_refl) as H1. cbn [fst] in H1.
+      destruct b'; cbn [fst snd]; intros _; apply pcz_nil; congruence.
+  Qed.
+
+  Lemma tcz_of_pcz Ls Qs m : GI Ls Qs m -> pcz m -> dirty m \/ tcz m.
+  Proof.
+    intros [D|I] Hp; [left; exact D|right]. intros o x E Hm.
+    apply (Hp o x E), (ik_pc _ _ _ _ I o x E), Hm.
+  Qed.
 End Pass.
